@@ -135,7 +135,14 @@ def evaluate(ctx, cases):
         reqs.append('shape.model %s %s %s %s' % (c['center'], proto.enc_list(used), proto.enc_list(amp_used), r))
         reqs.append('shape.spec %s %s %s %s' % (c['center'], proto.enc_list(x), proto.enc_list(amp_x), r))
         pre.append(dict(df=df, n=len(df), j=len(reqs) - 2))
+        if c['via'] in ('features', 'object') and not c['stub'] and len(df):
+            # the SHAPE projection of the composed Lean model (pipelineCycles) against the table of compute_features
+            rq = implutil.pipeline_request(x, c['fs'], c['f_range'], c['center'], c['fk'], c['boundary'], None, {})
+            if rq is not None: pre[-1]['pipe'] = rq
     ans = proto.run_driver(reqs)
+    pidx = [i for i, p in enumerate(pre) if 'pipe' in p]
+    for i, a in zip(pidx, proto.run_driver([pre[i]['pipe'] for i in pidx])):
+        pre[i]['pipe_ans'] = a
     out = []
     for c, p in zip(cases, pre):
         key = hash(repr({k: v for k, v in c.items() if k != 'family'}))
@@ -162,6 +169,10 @@ def evaluate(ctx, cases):
                         return 'row %d column %s: implementation %r, expected %s' % (i, col, float(v), row[k])
             return None
         dm, ds = cmp(model), cmp(spec)
+        if dm is None and 'pipe_ans' in p:
+            pj = implutil.pipeline_projections(p['pipe_ans'], df, c['center'], {})
+            if pj['shape'] is not None: dm = 'composed model (pipelineCycles): ' + pj['shape']
+            ctx.hist('pipeline shape', 'agrees' if pj['shape'] is None else 'differs')
         if dm: info['model_diff'] = dm
         if ds: info['spec_diff'] = ds
         ctx.hist('outcome', 'table')
